@@ -48,7 +48,7 @@ impl CountMinSketch {
         let mask = self.mask;
         self.rows.iter_mut().enumerate().for_each(|(idx, row)| {
             let idx = idx as u64;
-            let pos = (h + idx * l) & mask;
+            let pos = h.wrapping_add(idx * l) & mask;
             row.increment(pos);
         });
     }
@@ -60,7 +60,7 @@ impl CountMinSketch {
         let mut min = 255u8;
         (0..DEPTH).for_each(|i| {
             let idx = i as u64;
-            let pos = (h + idx * l) & self.mask;
+            let pos = h.wrapping_add(idx * l) & self.mask;
             let v = self.rows[i].get(pos);
             if v < min {
                 min = v;
